@@ -112,3 +112,10 @@ UNITS.append(Native(
           "replaced by declarations; lexical and syntactic errors are reported, semantic ones (a redefinition for a class "
           "without properties) recorded in the evidence only; the generated tests (Catch2) are not checked",
     args={}, timeout_s=1500))
+
+UNITS.append(Native(
+    "every file of the Python SDK generated for the other harness meta-models parses", ["C20"],
+    "native.c20sdk:python_sdk_parses_for_models", kind="examples",
+    bound="the meta-models of the Java unit (constants, inheritance, a class without properties, constructors with 0, 2, "
+          "3 arguments, ...) through the Python target: every generated *.py (~80 files of ~10 models) parses with "
+          "CPython's ast.parse", args={}, timeout_s=600))
